@@ -297,6 +297,72 @@ def simple_check(pid, tier, seed, spec):
         shutil.rmtree(od, ignore_errors=True)
 
 
+# --------------------------------------------------------------------------- generated derive-schema crates
+
+GEN_TARGET = os.path.join(HARNESS, "target", "gen")
+QUICK_GEN = ("q", 0, 90, 16)
+
+
+def gen_specs(tier, seed):
+    """(name, generator seed, #types, #chains) of the schema crates of a tier."""
+    if tier == "thorough":
+        return [QUICK_GEN] + [("t%d" % k, 1000 + seed * 16 + k, 120, 24) for k in range(5)]
+    return [QUICK_GEN]
+
+
+def build_gen_crate(name, gseed, ntypes, nchains):
+    """Generate the crate (deterministic in its parameters) and build it against /repo."""
+    d = os.path.join(HARNESS, "gen", name)
+    os.makedirs(d, exist_ok=True)
+    p = subprocess.run([sys.executable, os.path.join(ROOT, "gen_schemas.py"), d, str(gseed), str(ntypes), str(nchains)], stdout=subprocess.PIPE, stderr=subprocess.STDOUT, text=True)
+    if p.returncode != 0:
+        raise Inconclusive("schema generator failed: %s" % p.stdout[-800:])
+    lock = os.path.join(d, "Cargo.lock")
+    if not os.path.exists(lock):
+        shutil.copy(os.path.join(HARNESS, "Cargo.lock"), lock)
+    cargo_build([], cwd=d, env={"CARGO_TARGET_DIR": GEN_TARGET}, what="generated schema crate %s" % name)
+    bindir = os.path.join(GEN_TARGET, "bin")
+    os.makedirs(bindir, exist_ok=True)
+    dst = os.path.join(bindir, "vgen-%s" % name)
+    shutil.copy2(os.path.join(GEN_TARGET, "release", "vgen"), dst)
+    return dst
+
+
+def derive_check(pid, tier, seed, spec):
+    """C07 (derived part, plus the built-in part), C08, C09, C10 over generated schema crates."""
+    t0 = time.time()
+    sub = spec["sub"]
+    od = outdir_for(pid, tier)
+    values = spec.get("values", {}).get(tier, 300)
+    try:
+        all_reports, all_problems, dirs = [], [], []
+        vmain = build_vmain()
+        if spec.get("builtin_too"):
+            reports, problems = run_workers(vmain, sub, tier, seed, NCPU, os.path.join(od, "builtin"), timeout=3600)
+            all_reports += reports
+            all_problems += problems
+            dirs.append(os.path.join(od, "builtin"))
+        crates = []
+        for (name, gseed, ntypes, nchains) in gen_specs(tier, seed):
+            binary = build_gen_crate(name, gseed, ntypes, nchains)
+            crates.append({"name": name, "generator_seed": gseed, "types_requested": ntypes, "chains": nchains})
+            wd = os.path.join(od, name)
+            reports, problems = run_workers(binary, sub, tier, seed, NCPU, wd, extra=["--values", str(values)], timeout=3600)
+            for r in reports:
+                for v in r["violations"]:
+                    for ex in v["examples"]:
+                        if ex.get("replay"):
+                            ex["replay"][0] = "%s@%s,%d,%d,%d" % (ex["replay"][0], name, gseed, ntypes, nchains)
+            all_reports += reports
+            all_problems += problems
+            dirs.append(wd)
+        merged = merge_reports(all_reports)
+        dh = merge_hashes(vmain, dirs)
+        return finish(pid, tier, seed, spec, merged, all_problems, dh, time.time() - t0, {"generated_crates": crates, "values_per_type": values})
+    finally:
+        shutil.rmtree(od, ignore_errors=True)
+
+
 # --------------------------------------------------------------------------- sanitizer stages
 
 VMIRI = os.path.join(HARNESS, "vmiri")
@@ -531,9 +597,13 @@ CHECKS["C13"] = {
 
 CHECKS["C07"] = {
     "sub": "c07",
+    "runner": derive_check,
+    "builtin_too": True,
+    "values": {"quick": 2000, "thorough": 30000},
+    "engine": "vmain+vgen",
     "level": "exploration",
     "technique": "runtime monitoring: len() vs bytes actually written, exact-size and one-byte-short slice experiments",
-    "rule": "built-in impls: values of every built-in CborLen type from the boundary-dense generators, slices and borrowed forms, every Token variant (all 65536 half patterns, Simple 0..=255, byte strings with bytes >= 0x18); derived impls: see the derive stage; a case is non-trivial when encoding succeeded and len() was compared; distinct by hash of (type, encoding)",
+    "rule": "built-in impls: values of every built-in CborLen type from the boundary-dense generators, slices and borrowed forms, every Token variant (all 65536 half patterns, Simple 0..=255, byte strings with bytes >= 0x18); derived impls: every type of the generated schema crates (see C08: array/map, index gaps, every Some/None combination of up to 7 optional fields then random, tags at every level incl. on optional fields, >= 24 and >= 256 declared fields, transparent, skip, index_only, with/cbor_len custom codecs) x generated values; a case is non-trivial when encoding succeeded and len() was compared; distinct by hash of (type, encoding)",
     "level_text": "len(v) is compared with the number of bytes the encoder really writes, and the two buffer experiments (exactly len bytes suffices, len-1 fails, canary intact) are run for every value; the value spaces are unbounded so they are explored boundary-dense, the finite token sub-domains exhaustively.",
     "level_note": "Trusted: the encoder as the source of the true length (C03 checks it).",
     "assumptions": COMMON_ASSUMPTIONS,
@@ -589,6 +659,47 @@ CHECKS["C18"] = {
     "assumptions": COMMON_ASSUMPTIONS,
 }
 
+DERIVE_RULE = "programs: type definitions drawn from a schema grammar (named/tuple/unit structs, enums with unit/tuple/named variants; array/map at type, enum and variant level; index_only; transparent; skip; tag at struct/enum/variant/field level; indices with gaps, permuted against declaration order, >= 24 and >= 256; n vs b; field types from a pool of primitives, String, &str, Cow<str>, byte types with and without minicbor::bytes, Option/Vec/BTreeMap of those, previously generated types, a nil-aware custom codec via with+has_nil and via encode_with/decode_with/is_nil/nil/cbor_len) plus hand-picked shapes (26/260 optional fields, tagged optionals mid-array, Option<Option<_>>, unit variants with their own encoding override, Cow under #[b]); quick: one fixed crate (~200 types incl. twins and 16 version chains), thorough: 6 crates with VERIF_SEED-derived generator seeds; values: all presence combinations of the first 7 optional decisions (Gray-code masks) then random, boundary-dense field values"
+
+CHECKS["C08"] = {
+    "sub": "c08",
+    "runner": derive_check,
+    "values": {"quick": 2000, "thorough": 30000},
+    "engine": "vgen",
+    "level": "exploration",
+    "technique": "runtime monitoring of generated programs: derived Encode output vs a reference encoder that interprets the schema description",
+    "rule": DERIVE_RULE + "; each value's derived encoding must equal the reference encoding computed from the schema description (names, declaration order and n/b never enter the reference); twin types (renamed, declarations reversed, n<->b flipped) must give identical bytes; distinct = hash of (type, bytes)",
+    "level_text": "The quantifier is over programs, so the workload generates programs: each generated type is compiled with the real derive macros and its output compared byte-for-byte with a reference encoder written from the documented format over the schema description, for all presence combinations of optional fields. This is exploration over a grammar with an exact oracle.",
+    "level_note": "Trusted: harness/dsupport/src/refschema.rs (documented format), gen_schemas.py (the description it emits matches the attributes it writes). A field-level tag inside a transparent struct is outside the grammar (silently ignored by the macro on both sides). One documented-but-ambiguous corner is accepted either way: an absent tagged optional that is not trailing in an array may be `tag null` or `null`.",
+    "assumptions": COMMON_ASSUMPTIONS,
+}
+
+CHECKS["C09"] = {
+    "sub": "c09",
+    "runner": derive_check,
+    "values": {"quick": 2000, "thorough": 30000},
+    "engine": "vgen",
+    "level": "exploration",
+    "technique": "runtime monitoring of generated programs: derived Decode of the derived encoding vs view equality, position, provenance of borrowed fields; re-framed and corrupted encodings",
+    "rule": DERIVE_RULE + "; per value: decode(encode(v)) must equal v (skipped fields default), stop at the end, and every &str/&[u8]/&ByteSlice field and every Cow under #[b] must point into the input; re-framings documented as accepted (field containers and collections indefinite, wider heads) must give the same value, all-indefinite re-framings the same value or an error; corrupted encodings (wrong tag, stripped tag on a present value, missing mandatory field, unknown top-level variant) must fail with the documented error class; distinct = hash of (type, bytes)",
+    "level_text": "Round-trip, exact consumption and zero-copy claims are observed on real derived code for generated programs; the negative cases are produced by editing the reference item tree, so each corruption is exactly one documented failure cause.",
+    "level_note": "Trusted: refschema::expected_type / markers for re-framing; pointer-range provenance monitor. Option<Option<_>> decodes Some(None) as None (lossy by construction).",
+    "assumptions": COMMON_ASSUMPTIONS,
+}
+
+CHECKS["C10"] = {
+    "sub": "c10",
+    "runner": derive_check,
+    "values": {"quick": 1500, "thorough": 20000},
+    "engine": "vgen",
+    "level": "exploration",
+    "technique": "runtime monitoring of generated program pairs: reader result vs a compatibility projection over two schema descriptions",
+    "rule": "version chains: from a random base struct (with an enum used only as an optional field) apply 1-4 documented-compatible edits (rename everything; add an optional field at a new highest index or at a never-used gap index, plain, tagged or with the nil-aware codec; drop an optional field; add a variant, regular or index_only; turn a unit variant into a tuple/struct variant with only optional fields; flip n/b); every ordered pair of versions is checked with all writer values (presence masks + random): the reader must obtain the projection computed from the two schema descriptions, consume everything, also when the evolved type is nested in a struct, a map-encoded struct, an enum variant or a tuple with a sibling after it; control: a reader with an added mandatory field must report missing-value; distinct = hash of (pair, bytes)",
+    "level_text": "Compatibility is a property of pairs of programs; the generator derives version chains by the documented edits, compiles every version with the real macros and compares what the reader obtains with a projection computed only from the two schema descriptions. Nesting with a trailing sibling makes mis-consumed input observable.",
+    "level_note": "Trusted: refschema::project. Indices are never reused with another meaning along a chain (that would not be a compatible change).",
+    "assumptions": COMMON_ASSUMPTIONS,
+}
+
 
 def write_manifest():
     ids = [json.loads(l)["id"] for l in open(os.path.join(ROOT, "properties.jsonl"))]
@@ -615,7 +726,8 @@ def write_manifest():
         "setup_cmd": "./run.py build",
         "hooks": hooks,
         "engines": [
-            {"name": "vmain", "path": "harness/vmain", "serves_properties": [c["property_id"] for c in checks if c["engine"] == "vmain"], "kind_free_text": "Rust worker binary linking /repo's crates (std+half+derive, --cfg minicbor_verif): workload generators, reference models, runtime monitors; orchestrated by run.py"},
+            {"name": "vmain", "path": "harness/vmain", "serves_properties": [c["property_id"] for c in checks if "vmain" in c["engine"]], "kind_free_text": "Rust worker binary linking /repo's crates (std+half+derive, --cfg minicbor_verif): workload generators, reference models, runtime monitors; orchestrated by run.py"},
+            {"name": "vgen", "path": "gen_schemas.py + harness/dsupport", "serves_properties": [c["property_id"] for c in checks if "vgen" in c["engine"]], "kind_free_text": "schema generator emitting Rust crates that are compiled with /repo's derive macros; reference semantics over schema descriptions in harness/dsupport"},
         ],
         "checks": checks,
         "not_applicable": na,
@@ -653,7 +765,13 @@ def do_replay(path):
         return 2
     spec = CHECKS[pid]
     try:
-        binary = spec.get("replay_binary", build_vmain)()
+        if "@" in argv[0]:
+            sub, g = argv[0].split("@")
+            name, gseed, ntypes, nchains = g.split(",")
+            binary = build_gen_crate(name, int(gseed), int(ntypes), int(nchains))
+            argv = [sub] + argv[1:]
+        else:
+            binary = spec.get("replay_binary", build_vmain)()
     except Inconclusive as ex:
         log("INCONCLUSIVE property=%s reason=%s" % (pid, ex))
         return 2
@@ -684,6 +802,7 @@ def main(argv):
     if len(argv) >= 2 and argv[1] == "build":
         try:
             build_vmain()
+            build_gen_crate(*QUICK_GEN)
         except Inconclusive as ex:
             log(str(ex))
             return 1
